@@ -198,4 +198,23 @@ def step (p : Pool) : Op → Pool
 
 def run (p : Pool) (ops : List Op) : Pool := ops.foldl step p
 
+/-! ### the app-level pool (app/context_pool.go, App.wrapHandler) -/
+
+/-- app.Context: the embedded *router.Context, the back reference, the binding metadata (0 = nil) -/
+structure AppCtx where
+  context : Nat := 0
+  app : Nat := 0
+  bindingMeta : Nat := 0
+  deriving DecidableEq, Repr
+
+/-- `contextPool.Put`: clears the three fields -/
+def appPut (_ : AppCtx) : AppCtx := {}
+
+/-- the closure `wrapHandler` returns: get, deferred (clear; Put), initialise all three fields, call the handler.
+    Returns what the handler received and what went back to the pool. -/
+def appWrap (pooled : AppCtx) (rc a : Nat) (handler : AppCtx → AppCtx) : AppCtx × AppCtx :=
+  let ac := { pooled with context := rc, app := a, bindingMeta := 0 }
+  let after := handler ac
+  (ac, appPut { after with context := 0, app := 0, bindingMeta := 0 })
+
 end Rivaas.Pool
